@@ -474,7 +474,13 @@ class Interp:
             p.decisions = list(self.prefix[: self.pos])
             paths.append(p)
             if len(paths) > self.max_paths:
-                raise PathLimit("more than %d paths" % self.max_paths)
+                # path explosion: give up on the symbolic run (undecided), never an error or a verdict
+                q = Path()
+                q.kind, q.exc, q.where = "unsupported", Unsupported("more than %d paths (path explosion)" % self.max_paths), self.where
+                q.pc, q.facts, q.effects, q.defined, q.may_raise, q.shape_failures, q.rng_draws, q.call_log, q.decisions = [], [], [], [], [], [], [], [], []
+                paths.append(q)
+                self.pending = []
+                break
         sym.reset_hooks()
         return paths
 
